@@ -16,6 +16,7 @@ EXPLANATION = (
     "and a kept link is re-pointed whenever its resolved target differs from the job directory, without an existence "
     "precondition (dangling links must be repaired too); obsolete links are removed before new ones are made, deepest first."
     ' (f) The link-building and view-updating loops carry nothing between jobs / links.'
+    ' The tree of existing links and the colouring of wanted links split paths into components the same way.'
 )
 UNDECIDED = "Incremental result == from-scratch result over histories, absence of empty directories and exact link targets are not decided."
 
@@ -53,7 +54,10 @@ def c17_a(ctx: Ctx):
                                     witness=cfg.describe_path(bad) if bad else None))
     # separator check covers keys and values
     txt = " ".join(canon(n) for n in body_nodes(f) if isinstance(n, ast.Assign))
-    if ".keys()" in txt and ".values()" in txt and "os.sep in item" in txt:
+    # keys: `.keys()` or plain iteration over the state point mapping; values: `.values()`; the test: os.sep in <item>
+    key_iter = ".keys()" in txt or any(isinstance(g, ast.comprehension) and isinstance(g.iter, ast.Call) and canon(g.iter).endswith("statepoint()") for g in body_nodes(f))
+    sep_test = any(isinstance(c, ast.Compare) and len(c.ops) == 1 and isinstance(c.ops[0], ast.In) and canon(c.left) in ("os.sep", "os.path.sep") for c in body_nodes(f))
+    if key_iter and ".values()" in txt and sep_test:
         out.append(ctx.ok(R, f, f.node, "both state point keys and values are examined for the path separator", construct=CLV + "|sep-coverage"))
     else:
         out.append(ctx.inc(R, f, f.node, "separator check shape not recognised", construct=CLV + "|sep-coverage"))
